@@ -698,6 +698,140 @@ func TestC20StreamConcurrent(t *testing.T) {
 	})
 }
 
+// ---- streaming through the real event system (asynchronous handler goroutine): events are added with AddEvent while
+// subscribers are created and history queries run concurrently. Every subscriber must see a gap-free, duplicate-free,
+// ordered sequence that ends with the last event.
+
+type sysStreamCase struct {
+	Total  int      `json:"total"`
+	SubAt  []int    `json:"sub_at"`
+	Counts []uint64 `json:"counts"`
+	Reader bool     `json:"reader"` // a concurrent history reader keeps the ring buffer lock busy
+}
+
+func runSystemStream(c sysStreamCase) (msg string, labels []string, nontrivial bool) {
+	if c.Total == 0 {
+		return "", nil, false
+	}
+	events.Init()
+	sys, ok := events.GetEventSystem().(*events.EventSystemImpl)
+	if !ok {
+		return "", nil, false
+	}
+	sys.StartServiceWithPublisher(false)
+	defer sys.Stop()
+	lab := map[string]bool{}
+	var added atomic.Int64
+	stopReader := make(chan struct{})
+	if c.Reader {
+		lab["concurrent-history-reader"] = true
+		go func() {
+			for {
+				select {
+				case <-stopReader:
+					return
+				default:
+					sys.GetEventsFromID(0, 1000)
+				}
+			}
+		}()
+	}
+	done := make(chan struct{})
+	go func() {
+		defer close(done)
+		for i := 0; i < c.Total; i++ {
+			sys.AddEvent(&si.EventRecord{ObjectID: fmt.Sprintf("p%d", i)})
+			added.Add(1)
+			if i%5 == 0 {
+				runtime.Gosched()
+			}
+		}
+	}()
+	type sub struct {
+		stream *events.EventStream
+		count  uint64
+		at, b  int // events submitted before the subscription was requested / when it returned
+	}
+	var subs []*sub
+	for i, at := range c.SubAt {
+		for int(added.Load()) < at && int(added.Load()) < c.Total {
+			runtime.Gosched()
+		}
+		s := &sub{count: c.Counts[i], at: int(added.Load())}
+		s.stream = sys.CreateEventStream(fmt.Sprintf("sys-%d", i), s.count)
+		s.b = int(added.Load())
+		subs = append(subs, s)
+		if s.at > 0 && s.at < c.Total {
+			nontrivial = true
+			lab["subscribed-while-publishing"] = true
+		}
+	}
+	<-done
+	close(stopReader)
+	last := c.Total - 1
+	for i, s := range subs {
+		var got []int
+		// events submitted after the subscription returned are processed after the registration: they must arrive.
+		// Without such an event nothing can be demanded: only what arrives within a moment is looked at.
+		wait := 30 * time.Second
+		if s.b >= c.Total {
+			wait = 20 * time.Millisecond
+		}
+		deadline := time.After(wait)
+	read:
+		for len(got) == 0 || got[len(got)-1] != last {
+			select {
+			case e, ok := <-s.stream.Events:
+				if !ok {
+					break read
+				}
+				got = append(got, eventNo(e))
+			case <-deadline:
+				break read
+			}
+		}
+		sys.RemoveStream(s.stream)
+		where := fmt.Sprintf("subscriber %d (history %d, subscribed after %d of %d events were submitted)", i, s.count, s.at, c.Total)
+		if len(got) == 0 {
+			if s.b < c.Total {
+				return fmt.Sprintf("%s received nothing although %d events were submitted after the subscription returned", where, c.Total-s.b), keys(lab), nontrivial
+			}
+			continue
+		}
+		for j := 1; j < len(got); j++ {
+			if got[j] != got[j-1]+1 {
+				return fmt.Sprintf("%s received ids %v: not consecutive at position %d", where, got, j), keys(lab), nontrivial
+			}
+		}
+		if s.b < c.Total && got[len(got)-1] != last {
+			return fmt.Sprintf("%s received ids %v: the last event %d never arrived", where, got, last), keys(lab), nontrivial
+		}
+	}
+	return "", keys(lab), nontrivial
+}
+
+func TestC20SystemStream(t *testing.T) {
+	st := harness.NewStats("C20")
+	defer st.Write()
+	defer harness.FlushFailure("C20/sysstream")
+	rapid.Check(t, func(t *rapid.T) {
+		c := sysStreamCase{Total: rapid.IntRange(1, 150).Draw(t, "total"), Reader: rapid.Bool().Draw(t, "reader")}
+		n := rapid.IntRange(1, 4).Draw(t, "subs")
+		for i := 0; i < n; i++ {
+			c.SubAt = append(c.SubAt, rapid.IntRange(0, c.Total).Draw(t, "at"))
+			c.Counts = append(c.Counts, boundary(t, "hist", 0, 100, uint64(c.Total)))
+		}
+		sort.Ints(c.SubAt)
+		raw, _ := json.Marshal(c)
+		msg, labels, nt := runSystemStream(c)
+		st.Case(harness.Fingerprint("sysstream"+string(raw)), nt, labels, c)
+		if msg != "" {
+			harness.RecordFailure(&harness.Failure{Property: "C20", Check: "C20/sysstream", Message: msg, Size: len(raw), Case: raw})
+			t.Fatalf("%s", msg)
+		}
+	})
+}
+
 // TestC20Replay re-executes a recorded failing case without the PBT library.
 func TestC20Replay(t *testing.T) {
 	path := os.Getenv("VERIF_REPLAY")
@@ -719,6 +853,12 @@ func TestC20Replay(t *testing.T) {
 		var c streamCase
 		mustUnmarshal(t, f.Case, &c)
 		msg, _, _ = runStream(c)
+	case "C20/sysstream":
+		var c sysStreamCase
+		mustUnmarshal(t, f.Case, &c)
+		for i := 0; i < 300 && msg == ""; i++ {
+			msg, _, _ = runSystemStream(c)
+		}
 	case "C20/cstream":
 		var c cstreamCase
 		mustUnmarshal(t, f.Case, &c)
